@@ -60,7 +60,19 @@ def run_one(params, with_dups, faults=False):
         V.option(b"l")
     V.set_frag(params["frag"])
     V.strict_match = True
+    W = None
+    if params.get("bystander"):
+        # a second established session (both runs) whose pings interleave with the judged session's at the server
+        W = mclient.ModelClient("10.53.2.5", (scen.SERVER_IP, 53), dom, sim.password, random.Random(rng.getrandbits(32)), qtype=params["qtype"])
+        k.add_actor(W.ip, W)
+        if not W.connect():
+            R["why"] = "model-login-failed"
+            return R
+        if params["bystander"] == "lazy":
+            W.option(b"l")
     T0 = 2 * US
+    if k.now >= T0:
+        T0 = k.now + 100000
     k.run(T0)
     sv = Scripted(V, random.Random(rng.getrandbits(32)))
     step, nticks = params["step"], params["nticks"]
@@ -75,6 +87,13 @@ def run_one(params, with_dups, faults=False):
 
     for i in range(nticks):
         k.at(T0 + i * step, sv.tick)
+    if W is not None:
+        def wtick():
+            W.drain()
+            W.query(W.ping_labels())
+        wstep = max(step * 2 // 3, 20000)
+        for i in range(nticks * step // wstep):
+            k.at(T0 + i * wstep + step // 3 + 1, wtick)
     for _ in range(params["nup"]):
         sizes = [32, 36, 40, 48] if params.get("many_small_up") else [40, 100, 300, 600]
         f = frame(V.tun_ip, "10.9.0.1", trng.choice(sizes), trng.choice(["random", "text"]))
@@ -150,6 +169,30 @@ def run_one(params, with_dups, faults=False):
         t = T0 + step + drng.randrange(nticks * step) + 7
         if with_dups:
             k.at(t, redeliver)
+    # the client changes its downstream fragment size in mid-session (both runs); in S1 the queries answered just before the
+    # change are re-delivered right after it: what the answer cache replays is what was sent, whatever the size is now
+    def refrag(size):
+        V.query(proto.msg_setfrag(V.domain, V.userid, size, V.new_cmc()))
+        V.fragsize = size
+
+    def redeliver_recent():
+        n = 0
+        for d in reversed(V.dgrams[-8:]):
+            if not is_pd([_first(d)]) or n >= 4:
+                continue
+            n += 1
+            nid = drng.randint(1, 65535)
+            own_next = {(V.next_id + 7727 * j) & 0xFFFF for j in range(1, 400)}
+            while nid in V.my_ids or nid in own_next:
+                nid = drng.randint(1, 65535)
+            out = struct.pack(">H", nid) + d[2:] if drng.random() < 0.7 else d
+            dups.append((k.now, out, "newid" if out is not d else "verbatim", d))
+            k.emit("dup", "harness", data=out, orig=d, how="after-refrag")
+            k.transmit((V.ip, V.sport), V.server, out, delay_us=k.latency_us + 300 * n)
+    for (tick, size) in params.get("refrag", ()):
+        k.at(T0 + tick * step + 9, refrag, size)
+        if with_dups:
+            k.at(T0 + tick * step + 9 + 2500, redeliver_recent)
     if faults:
         # now and then the operating system refuses one of the server's sendto() calls: the query concerned was processed
         # all the same, and a later copy of it is still a copy
@@ -429,6 +472,15 @@ def run(ctx):
             # from one wrap earlier are still inside the 30-entry ping window
             plist[-1].update(many_down=True, ndown=rng.randint(12, 22), nticks=rng.randint(180, 260), frag=50,
                              lazy=rng.random() < 0.8, ndup=rng.randint(50, 90), nup=rng.randint(0, 2))
+        if i % 3 == 1:
+            plist[-1]["bystander"] = "lazy" if i % 6 == 1 else "immediate"
+            if i % 6 == 1:
+                plist[-1]["lazy"] = True
+        if i % 8 == 5 and not plist[-1].get("many_down"):
+            # the downstream fragment size is lowered (and raised again) while larger fragments are still in the answer cache
+            nt_ = plist[-1]["nticks"]
+            plist[-1].update(frag=rng.choice([200, 1000] if big else [100]), ndown=rng.randint(4, 8),
+                             refrag=[(nt_ // 3, rng.choice([20, 50])), (2 * nt_ // 3, rng.choice([100, 30]))])
         if i % 16 in (7, 14):
             # the largest answers the server's answer cache holds: fragments of 2 .. 4 KB (record types that carry them)
             plist[-1].update(big_down=True, qtype=[proto.T_NULL, proto.T_PRIVATE][(i // 16) % 2], down=rng.choice([None, "r"]),
